@@ -180,7 +180,13 @@ class CGenerator:
         # no_type is used when a Decl is part of a DeclList, where the type is
         # explicitly only for the first declaration in a list.
         #
-        s = n.name if no_type else self._generate_decl(n)
+        # In a DeclList the specifiers are printed for the first declaration
+        # only; later ones still need their own declarator (e.g. '*p', 'a[2]').
+        s = (
+            self._generate_type(n.type, emit_base_type=False)
+            if no_type
+            else self._generate_decl(n)
+        )
         if n.bitsize:
             s += " : " + self.visit(n.bitsize)
         if n.init:
@@ -498,6 +504,7 @@ class CGenerator:
         n: c_ast.Node,
         modifiers: List[c_ast.Node] = [],
         emit_declname: bool = True,
+        emit_base_type: bool = True,
     ) -> str:
         """Recursive generation from a type node. n is the type node.
         modifiers collects the PtrDecl, ArrayDecl and FuncDecl modifiers
@@ -544,6 +551,8 @@ class CGenerator:
                                 nstr = f"* {quals}{suffix}"
                             else:
                                 nstr = "*" + nstr
+                if not emit_base_type:
+                    return nstr
                 if nstr:
                     s += " " + nstr
                 return s
@@ -555,7 +564,10 @@ class CGenerator:
                 return " ".join(n.names) + " "
             case c_ast.ArrayDecl() | c_ast.PtrDecl() | c_ast.FuncDecl():
                 return self._generate_type(
-                    n.type, modifiers + [n], emit_declname=emit_declname
+                    n.type,
+                    modifiers + [n],
+                    emit_declname=emit_declname,
+                    emit_base_type=emit_base_type,
                 )
             case _:
                 return self.visit(n)
